@@ -418,6 +418,18 @@ STRATEGIES = {
 }
 
 
+def same_motifs_one_maa(bnet, valuations):
+    """Shape filter of families.same_motif_cond_nets (brute force): under all the given controller valuations the rest of the network has the SAME
+    stable motifs (maximal trap spaces), under at least one of them it has a motif-avoidant attractor and under at least one it has none."""
+    net = oracle.Net.from_bnet(bnet)
+    motifs, maa = set(), set()
+    for val in valuations:
+        sub = net.restrict(net.percolate(val))
+        motifs.add(tuple(sorted(skey(m) for m in sub.max_traps_in({}))))
+        maa.add(bool(sub.motif_avoidant()))
+    return len(motifs) == 1 and maa == {True, False}
+
+
 def net_info(net: oracle.Net) -> dict:
     atts = net.attractors()
     return {"vars": net.n, "attractors": len(atts), "complex": sum(1 for a in atts if a & (a - 1)), "maa": len(net.motif_avoidant()),
